@@ -90,7 +90,10 @@ def cases(draw, tier):
         key = "obs" if op["axis"] == "observation" else "samp"
         n = len(spec[key])
         pool = ["S1", "S10", "S11", "S2", "S9", "x10.5", "x9", "s1", "S",
-                "S1a", "S01", "S010", "t2", "t10"]
+                "S1a", "S01", "S010", "t2", "t10"] \
+            if draw(st.booleans()) else \
+            ["1", "01", "1.0", "1e2", "10", "2", "-3", "+4", "0x10", "1_000",
+             "100", "9", "0.5", "5e-1"]
         pick = list(draw(st.permutations(pool)))[:n]
         pick += ["u%d" % i for i in range(n - len(pick))]
         spec[key] = sorted(pick, reverse=draw(st.booleans()))
@@ -209,9 +212,21 @@ def check(case, rec):
         ids = ref.ids(axis)
         f = sort_f(op["f"])
         if f is None:
+            # "natural order" is whatever biom.util.natsort says (its key is
+            # the definition); independent of that definition it is an
+            # order on the IDs, i.e. the same whatever order they were in
             from biom.util import natsort
             order = list(natsort(list(ids)))
             r = t.sort(axis=axis)
+            if len(ids) > 1:
+                rev = t.sort_order(list(reversed(ids)), axis=axis)
+                got_rev = [str(i) for i in rev.sort(axis=axis).ids(axis=axis)]
+                got_fwd = [str(i) for i in r.ids(axis=axis)]
+                if got_rev != got_fwd:
+                    raise Violation("order", "sort() depends on the order "
+                                    "the axis was in: %r gives %r, reversed "
+                                    "first it gives %r" %
+                                    (ids, got_fwd, got_rev))
         else:
             order = list(f(list(ids)))
             r = t.sort(f, axis) if case.get("positional") else \
